@@ -147,7 +147,7 @@ struct State {
     writing_blocks: HashSet<BlockId>,
     reclaiming_blocks: HashSet<BlockId>,
 
-    clean_block_waiters: Vec<oneshot::Sender<Block>>,
+    clean_block_waiters: VecDeque<oneshot::Sender<Block>>,
 
     eviction_pickers: Vec<Box<dyn EvictionPicker>>,
 
@@ -215,7 +215,7 @@ impl BlockManager {
             evictable_blocks: HashSet::new(),
             writing_blocks: HashSet::new(),
             reclaiming_blocks: HashSet::new(),
-            clean_block_waiters: Vec::new(),
+            clean_block_waiters: VecDeque::new(),
             eviction_pickers,
             reclaim_waiters: Vec::new(),
         };
@@ -310,7 +310,7 @@ impl BlockManager {
                     return block;
                 } else {
                     let (tx, rx) = oneshot::channel();
-                    state.clean_block_waiters.push(tx);
+                    state.clean_block_waiters.push_back(tx);
                     drop(state);
                     rx
                 }
@@ -362,7 +362,11 @@ impl BlockManager {
         let mut state = self.inner.state.write().unwrap();
         state.reclaiming_blocks.remove(&block.id());
         self.inner.metrics.storage_block_engine_block_reclaiming.decrease(1);
-        if let Some(waiter) = state.clean_block_waiters.pop() {
+        // Serve the writers in arrival order: the blocks of one batch ask for clean blocks in sequence order, and
+        // blocks are reclaimed in the order they finish writing. Handing a clean block to the newest waiter would
+        // land newer entries before older ones, and reclaiming the newer block first would let the older copy of a
+        // key win the index afterwards.
+        if let Some(waiter) = state.clean_block_waiters.pop_front() {
             self.inner.metrics.storage_block_engine_block_writing.increase(1);
             let _ = waiter.send(block);
         } else {
